@@ -149,6 +149,13 @@ def run_case(case, ctx):
             # budget reaches the Krylov dimension -> Q T Q^T = A on the space (A q0 reproduced)
             if bool((kd <= k).all()):
                 checks.append(("invariant_subspace_at_full_krylov_dim", float(Rm.abs().max()) / scale, max(tol * 100, 1e-5)))
+            else:
+                # per member / probe: wherever the *budget* reaches that member's Krylov dimension, Q T Q^T must equal A on its space,
+                # i.e. its residual vanishes - a run cut short because ANOTHER member or probe broke down does not satisfy this
+                reach = kd <= min(case["max_iter"], n)  # (ninit, *batch)
+                if bool(reach.any()) and not bool((kd < k).any()):
+                    rm = Rm.abs().amax(dim=(-2, -1))  # (ninit, *batch)
+                    checks.append(("invariant_subspace_where_budget_reaches_krylov_dim", float(rm[reach].max()) / scale, max(tol * 100, 1e-5)))
         okall = True
         for name, err, t in checks:
             if not err <= t:
